@@ -68,10 +68,12 @@ class BlobDownloader:
         await asyncio.wait(active_tasks, return_when='FIRST_COMPLETED')
 
     def cleanup_active(self):
-        # bans expire on their own schedule (failures ** 2 seconds, 30 at most).  Waiting for a moment without any
-        # active request or kept connection let one peer that keeps a request going (e.g. by dropping every
-        # connection, which is not even counted as a failure) keep every other peer banned for ever
-        self.clearbanned()
+        # while a connection is kept, failed peers stay banned (the spare request slots go to untried peers).  Without
+        # one, bans expire on their own schedule (failures ** 2 seconds, 30 at most): waiting for a moment without any
+        # ACTIVE REQUEST let a peer that keeps a request going (e.g. by dropping every connection, which is not even
+        # counted as a failure) keep every other peer banned for ever
+        if not self.connections:
+            self.clearbanned()
         to_remove = [peer for (peer, task) in self.active_connections.items() if task.done()]
         for peer in to_remove:
             del self.active_connections[peer]
